@@ -127,7 +127,11 @@ def install(policy, func, ordinal, inv, havoc=None, havoc_fields=(), name=None, 
       except I._Break:
         return
       if body_check is not None:
-        r = body_check(interp, frame, path.events[mark:])
+        try:
+          r = body_check(interp, frame, path.events[mark:])
+        except (AttributeError, KeyError, TypeError, IndexError, z3.Z3Exception) as e:
+          # the loop no longer has the shape the contract was written for
+          raise I.Unsupported(f'loop contract {label} of {func} not evaluable on this code shape: {e!r}')
         ex.check_goal(path, ob('LOOP-BODY'), r.z if hasattr(r, 'z') else r)
       ex.check_goal(path, ob('INV-step'), inv_at(i + 1))
       raise I.PathEnd()
